@@ -19,6 +19,11 @@ CLAIMED['C09'] = ("Coq theorems (axiom-free): an invariant (stored outcomes dupl
          COMMON_NOTE + "normalize/base changes within 1e-9 relative; validate() verdicts three-valued near tolerances; generator identity observed through a shadow RandomState.")
 CLAIMED['C12'] = ("Coq theorems (axiom-free) over Q: the scan returns exactly the index whose cumulative interval contains u (soundness and uniqueness), never a zero-probability outcome, every positive outcome is reached by some u in [0,1), totality below the mass, and the repaired fall-back returns the last positive outcome; generator draws compose. Tie to /repo: a binary64 (PrimFloat) mirror of the sequential scan is evaluated by vm_compute and must agree bit-for-bit with dit on endpoint, neighbour-float and generator-drawn random numbers; the exact-rational interval predicate is evaluated on dit's output.",
          COMMON_NOTE + "The PrimFloat instance of the scan is executed, not proved to satisfy the ordered-field laws used by the Q theorems; NumPy RandomState is the oracle for generator streams.")
+REAL_NOTE = ("Real-valued theorems and goals rest on the Coq stdlib Reals axioms (ClassicalDedekindReals.sig_not_dec, sig_forall_dec, FunctionalExtensionality.functional_extensionality_dep, Classical_Prop.classic); values are compared by Coq-Interval 4.6.1 (reflexive interval arithmetic over Flocq, checked by the kernel with vm_compute), tolerance 1e-9. ")
+CLAIMED['C04'] = ("Coq theorems: Shannon entropy of any pmf is in [0, log2 |support|], zero when deterministic, insensitive to zero padding and permutation (Gibbs' inequality proved from ln x <= x-1); conditional entropy / MI are the stated entropy differences and MI is symmetric for any entropy function; on every finite table with positive weights MI and conditional entropy are non-negative and entropy depends only on which variables are addressed; Renyi/Tsallis take the Shannon branch at order 1. Tie to /repo: each generated query (Shannon, conditional, MI, multivariate entropy, Renyi/Tsallis of orders 0..inf, extropy, perplexity; subsets incl. empty/overlapping/invalid, by index or name) is one interval-arithmetic goal |model - dit| <= 1e-9 decided inside Coq (OK / provably different / inconclusive).",
+         COMMON_NOTE + REAL_NOTE + "Only linear distributions (log bases are C07).")
+CLAIMED['C05'] = ("Coq theorems: each multivariate measure evaluates to its defining combination of conditional entropies for any entropy function; for two groups co-information, total correlation, dual total correlation and CAEKL all equal I(X:Y|Z); on every finite table with positive weights I(X:Y|Z) >= 0 (full proof via Gibbs + a combinatorial mass bound), total correlation >= 0, dual total correlation >= 0 for disjoint groups, every CAEKL candidate >= 0; the model value on a clean distribution equals the joint-table entropy combination. Tie to /repo: each generated query (9 measures, arbitrary groupings, conditioning, names, cohesion k, CAEKL with per-partition lower-bound goals and a hinted minimiser) is an interval-arithmetic goal against dit's value.",
+         COMMON_NOTE + REAL_NOTE + "TSE and cohesion are covered by correspondence only (their defining sums are transcribed, no separate theorem).")
 PLANNED = {}
 ALL = ['C%02d' % i for i in range(1, 21)]
 
